@@ -122,6 +122,8 @@ class Problem:
             kw = dict(gridding='dict', gridding_opts=d)
         else:
             kw = dict(gridding='same')
+        if self.variant.get("layered"):
+            kw["layered"] = True
         return emg3d.Simulation(
             self.survey(code), self.model(m), max_workers=1, **kw,
             receiver_interpolation='linear',
@@ -149,12 +151,13 @@ class Problem:
             a = self.simulation(m)
             a.compute()
             o["syn"] = a.data.synthetic.data.copy()
-            o["efield"] = {p: a.get_efield(*sf).field.copy()
-                           for p, sf in self.pairs.items()}
-            o["hfield"] = {p: a.get_hfield(*sf).field.copy()
-                           for p, sf in self.pairs.items()}
-            c = self.simulation(m)
-            o["jvec"] = np.array(c.jvec(self.v)).copy()
+            if not self.variant.get("layered"):    # no fields if layered
+                o["efield"] = {p: a.get_efield(*sf).field.copy()
+                               for p, sf in self.pairs.items()}
+                o["hfield"] = {p: a.get_hfield(*sf).field.copy()
+                               for p, sf in self.pairs.items()}
+                c = self.simulation(m)
+                o["jvec"] = np.array(c.jvec(self.v)).copy()
             self.oracle[m] = o
             self.obs_codes[m+1] = o["syn"].copy()
         # everything that compares synthetic with observed data, for every
